@@ -515,25 +515,25 @@ theorem model_meets_spec {chk : Constraint → Bytes → Bool} {cfg : Config} {u
         apply List.map_congr_left
         intro k _
         exact paramsGet_eq_specLookup cfg r.params vs k
-      simp only [hpos, hextra, hnames, bne_self_eq_false, Bool.false_eq_true, if_false]
+      have n1 : (r.params != (paramSegs decl.segs).map (fun s => s.paramName)) = false := by
+        rw [← hnames]; simp
+      have e1 : (((extraKeys r.params).map (paramsGet cfg r.params vs)) !=
+          ((extraKeys r.params).map (specLookup cfg r.params vs))) = false := by
+        rw [hextra]; simp
+      have c2 : (constraintViolation chk (paramSegs wr.segs) vs).isSome = false := by rw [h2]; rfl
       have a1 : (vs.length != (paramSegs wr.segs).length) = false := by simp [hlen]
       have a2 : ((paramSegs r.parser.segs).length != (paramSegs wr.segs).length) = false := by simp [l1]
       have a3 : ((paramSegs decl.segs).length != (paramSegs wr.segs).length) = false := by simp [l2]
-      simp only [a1, a2, a3, Bool.or_self, Bool.false_eq_true, if_false, h1, Bool.not_true, h2, Option.isSome_none,
-        h3, h4]
-      rw [← hnames]
-      simp
+      simp only [hpos, n1, a1, a2, a3, Bool.or_self, Bool.false_eq_true, if_false, h1, Bool.not_true, c2, h3, h4, e1]
 
-example : (match parseRoute (rawPattern (b "/Shop/:Id<int>/*")), parseRoute (writtenPattern {} (b "/Shop/:Id<int>/*")),
-      register {} false (b "/Shop/:Id<int>/*") with
+example : (match parseRoute (rawPattern (b "/A/:Id")), parseRoute (writtenPattern {} (b "/A/:Id")),
+      register {} false (b "/A/:Id") with
     | some decl, some wr, some r =>
       namesDistinct {} r.params &&
-      (modelObs (checkConstraint [] (fun _ _ => false)) {} false (b "/Shop/:Id<int>/*") (b "/SHOP/42/a/B")).vals
-        == [b "42", b "a/B"] &&
-      (modelObs (checkConstraint [] (fun _ _ => false)) {} false (b "/Shop/:Id<int>/*") (b "/SHOP/42/a/B")).extra
-        == [b "a/B", [], b "42", b "42"] &&
-      specViolation {} false decl.segs wr.segs r.parser.segs (checkConstraint [] (fun _ _ => false))
-        (modelObs (checkConstraint [] (fun _ _ => false)) {} false (b "/Shop/:Id<int>/*") (b "/SHOP/42/a/B")) == none
+      (modelObs (fun _ _ => true) {} false (b "/A/:Id") (b "/a/X")).vals == [b "X"] &&
+      (modelObs (fun _ _ => true) {} false (b "/A/:Id") (b "/a/X")).extra == [[], [], b "X", b "X"] &&
+      specViolation {} false decl.segs wr.segs r.parser.segs (fun _ _ => true)
+        (modelObs (fun _ _ => true) {} false (b "/A/:Id") (b "/a/X")) == none
     | _, _, _ => false) = true := by decide
 
 /-- Former known finding K1, on the repaired code: default configuration (case-insensitive routing),
